@@ -266,10 +266,37 @@ def random_string(rng):
     return "".join(parts)
 
 
+# characters that are letters/digits for Unicode-aware or case-insensitive
+# patterns but not for the documented ASCII name pattern; the first four
+# case-fold into ASCII letters
+_FOREIGN = ["\u212a", "\u017f", "\u0130", "\u0131", "\u2126", "\u212b",
+            "\xe9", "\xdf", "\u01c5", "\uff11", "\u0663", "\xb2", "\xaa",
+            "\xb5", "\u4e2d", "\uff41", "\u0391", "\u203f", "\uff3f"]
+_BOUNDARY = ["$%s", "${%s}", "$(%s)", "$a%s", "${a%s}", "$(a%s)", "$a%s b",
+             "$%sa", "${%sa}", "$(%sa)", "x$_%s", "$a1%s$a", "$$%s", "$a%s}",
+             "${a}%s", "$A%s", "$a\n", "${a}\n", "$a%s\n", "%s$a"]
+
+
+def boundary_strings():
+    for f in _FOREIGN:
+        for t in _BOUNDARY:
+            yield t.replace("%s", f)
+
+
 def run_shard(ctx):
     import ZConfig
     from ZConfig.substitution import isname, substitute
     bound = BOUND[ctx.tier]
+    # name boundaries next to non-ASCII letters and digits (every shard
+    # takes its share)
+    for bi, s in enumerate(boundary_strings()):
+        if ctx.mine(bi):
+            check_string(ctx, substitute, ZConfig, s, family="boundary")
+            ctx.res.count("boundary_strings")
+    for fi, f in enumerate(_FOREIGN):
+        if ctx.mine(fi):
+            for t in ("%s", "a%s", "%sa", "_%s", "a%s1", "a\n", "%s\n"):
+                check_isname(ctx, isname, t.replace("%s", f))
     for s in enum_strings(ctx, bound):
         check_string(ctx, substitute, ZConfig, s)
     rng = ctx.rng("random")
